@@ -258,6 +258,35 @@ def psbtWalk (useGlobal : Bool) (keys : List (Int × Bool)) (h : Int) : List (α
         | .error e => .error e
         | .ok xs => .ok (x :: xs)
 
+/-- the sender's walk in ADDRESS order: recipient `i` gets `output_key(secret(B_scan_i), B_m_i, k_i)` with `k_i` the
+number of earlier recipients with the same scan key — BIP352's own statement of the derivation -/
+def senderWalk (ha : Int) : List (α × α) → List (α × α) → R (List Bytes)
+  | _, [] => .ok []
+  | before, r :: rest =>
+    match outputKey o H (o.mul ha r.1) r.2 (countScan o r.1 before) with
+    | .error e => .error e
+    | .ok x =>
+      match senderWalk ha (before ++ [r]) rest with
+      | .error e => .error e
+      | .ok xs => .ok (x :: xs)
+
+/-- `output_keys` in specification form: the same answers as `outputKeys` (which mirrors btclib's group-then-reorder
+computation), computed by one walk over the addresses.  BOTH forms are served by the driver and compared with the real
+`output_keys` on the same op lines (`sp.output_keys`, `sp.output_keys_walk`); the end-to-end theorem is about this one. -/
+def outputKeysWalk (keys : List (Int × Bool)) (outpoints : List Bytes) (recips : List (α × α)) : R (List Bytes) :=
+  match prvKeySum o keys with
+  | .error e => .error e
+  | .ok a =>
+    match lowestOutpoint outpoints with
+    | .error e => .error e
+    | .ok lowest =>
+      match inputHash o H lowest (o.mul a o.gen) with
+      | .error e => .error e
+      | .ok h =>
+        if recips.any (fun r => countScan o r.1 recips > Gen.Interactive.SP_K_MAX) then .error .value
+        else if !(scalarOk o (h * a % o.n)) then .error .value
+        else senderWalk o H (h * a % o.n) [] recips
+
 /-- the taproot output keys the BIP375 roles write (`set_*_share` … `set_output_scripts`), in output order -/
 def psbtOutputKeys (useGlobal : Bool) (keys : List (Int × Bool)) (outpoints : List Bytes)
     (recips : List (α × α)) : R (List Bytes) :=
